@@ -73,10 +73,13 @@ def ob_seed_contract(with_seed, draw_in_hook=None):
     return f
 
 
-def ob_two_runs(names, n, cycles, helpers, hook_draws=False):
+def ob_two_runs(names, n, cycles, helpers, hook_draws=False, same_task=False):
+    """same_task: both runs use the very same task object (state kept inside the task or its variables between two
+    runs is not controlled by the seed either)"""
     def f():
         results = []
         seed = sym.integer("seed", 0, 2 ** 32 - 1)
+        shared_task = []
         for run in ("A", "B"):
             holder = {"np": None}
 
@@ -86,7 +89,12 @@ def ob_two_runs(names, n, cycles, helpers, hook_draws=False):
             with env(stubs.numpy_stream_layer(lambda: holder["np"], on_seed=on_seed),
                      stubs.stdlib_stream_layer(lambda: py)):
                 # costs by call index: equal call sequences give equal costs, so sorting never forks on positions
-                t = make_task(build_vars(names), lambda x, i: float(100 - i), seed=seed)          # later candidates always win
+                if same_task and shared_task:
+                    t = shared_task[0]
+                    t.data["log"].clear()
+                else:
+                    t = make_task(build_vars(names), lambda x, i: float(100 - i), seed=seed)          # later candidates always win
+                    shared_task.append(t)
 
                 def step(o, c):
                     new = []
@@ -179,6 +187,8 @@ def obligations(tier):
         n = 1 if names == ("P3",) and not th else 2          # (two permutation agents: 6^4 stream orders)
         obs.append(Ob(f"two_runs[{'+'.join(names)},plain,n={n}]", ob_two_runs(names, n, 1, ()), 600))
     obs.append(Ob("two_runs[C,selection,n=2]", ob_two_runs(("C",), 2, 1, ("selection",)), 900))
+    for names in (("P3",), ("C", "D3")):
+        obs.append(Ob(f"two_runs_same_task[{'+'.join(names)},n=1]", ob_two_runs(names, 1, 1, (), same_task=True), 600))
     obs.append(Ob("two_runs[C,roulette-flat,n=3]", ob_two_runs(("C",), 3, 1, ("roulette-flat",)), 900))
     obs.append(Ob("two_runs[C,roulette,n=3]", ob_two_runs(("C",), 3, 1, ("roulette",)), 900))
     obs.append(Ob("two_runs[C,partner,n=3]", ob_two_runs(("C",), 3, 1, ("partner",)), 1800))   # n=2: partner is forced
